@@ -213,6 +213,11 @@ pub fn run(ctx: &mut Ctx) {
                 s.e = v.clone();
             }
         }
+        // one case in nine starts with a CODE stack that already EQUALS the EXEC stack (the front end's
+        // flow: parse, copy to CODE, then run): the program must be copied again all the same
+        if k % 9 == 4 {
+            s.c = s.e.clone();
+        }
         s.cfg.eval_push_limit = limit;
         s.cfg.growth_cap = cap;
         s.cfg.eval_time_limit = 600_000; // time can never be the cause here
